@@ -139,7 +139,14 @@ class World:
 
     # ------------------------------------------------------------------ git plumbing
     def git(self, cwd, *args, check=True):
-        p = subprocess.run([REAL_GIT] + list(args), cwd=cwd, env=self.env, stdout=subprocess.PIPE,
+        # strictly increasing commit dates: rev-list order (and with it every later random choice) is
+        # a function of the history, not of the commit ids
+        self.tick = getattr(self, "tick", 0) + 1
+        env = self.env
+        if args and args[0] in ("commit", "tag"):
+            env = dict(self.env)
+            env["GIT_AUTHOR_DATE"] = env["GIT_COMMITTER_DATE"] = "@%d +0000" % (1700000000 + self.tick)
+        p = subprocess.run([REAL_GIT] + list(args), cwd=cwd, env=env, stdout=subprocess.PIPE,
                            stderr=subprocess.PIPE)
         if check and p.returncode != 0:
             raise GitError("git %s in %s: %s" % (" ".join(args), cwd, p.stderr.decode("utf-8", "replace")[-400:]))
@@ -271,10 +278,11 @@ class World:
         if k < 0.78:
             t = "t%d" % r.randrange(100)
             b = r.choice(branches)
+            existed = self.git(w, "rev-parse", "-q", "--verify", "refs/tags/" + t, check=False)[0] == 0
             self.git(w, "tag", "-f", t, b)
             self.git(w, "push", "-q", "-f", "origin", t)
             self.index_commits(bare)
-            return "up-tag %s %s" % (name, t)
+            return "%s %s %s" % ("up-movetag" if existed else "up-tag", name, t)
         if k < 0.86:
             # move an existing tag (deterministic checkouts assume this never happens)
             b = r.choice(branches)
